@@ -22,7 +22,7 @@ package wallet
 //@ func constructProofs
 //@   tags C10
 //@   safety C06 C10
-//@   requires keyset != nil && len(blindedMessages) == len(blindedSignatures)
+//@   requires keyset != nil && len(blindedMessages) == len(secrets)
 //@   requires forall j :: 0 <= j && j < len(rs) ==> rs[j] != nil
 //@   requires forall a :: (a in keyset.PublicKeys) ==> keyset.PublicKeys[a] != nil
 //@   calls nut12.VerifyBlindSignatureDLEQ asserts @wiring [C10] A == keyset.PublicKeys[blindedSignature.Amount] && B_str == blindedMessages[i].B_ && C_str == blindedSignature.C_ && dleq == *blindedSignature.DLEQ
@@ -32,45 +32,74 @@ package wallet
 
 // ---- NUT-13 counter discipline (C19), over the ghost counters of prelude module walletdb.
 // Stored counter is past every counter that may have been signed.
-//@ macro winv() = (forall id Str :: wdb.counter[id] >= wal.signedupto[id])
+//@ macro winv() = (forall id Str :: wdb.counter[id] >= wal.signedupto[id] && wdb.counter[id] >= wal.derivedupto[id])
 
 // Deterministic outputs take the counters old(*counter) .. old(*counter)+len-1, in order.
 // A-COUNTER (assumed, listed in the evidence): a counter range never crosses 2^32.
+// NUT-13: secret = hex(priv(m/../counter'/0)), r = priv(m/../counter'/1) - two different children
+//@ func generateDeterministicSecret
+//@   tags C11 C08 C19
+//@   safety C06 C11
+//@   requires counter < 2147483648
+//@   ensures @nut13 [C11,C08] r2 == nil ==> r1 != nil && r0 == hexenc(sc.ser(hd.privsc(hd.derive(hd.derive(path, 2147483648 + counter), 0)))) && sc.of(r1.Key) == hd.privsc(hd.derive(hd.derive(path, 2147483648 + counter), 1))
+//@ func generateRandomSecret
+//@   trusted
+//@   pure
+//@   ensures r2 == nil ==> r1 != nil
+
+// outputs locked to a spending condition use random secrets and blinding factors: no counter
+//@ func blindedMessagesFromSpendingCondition
+//@   tags C19
+//@   ensures @lens [C19] r3 == nil ==> len(r0) == len(splitAmounts) && len(r1) == len(splitAmounts) && len(r2) == len(splitAmounts) && (forall j :: 0 <= j && j < len(r2) ==> r2[j] != nil)
+//@   loop range(splitAmounts) invariant 0 <= i && i <= len(splitAmounts) && len(blindedMessages) == len(splitAmounts) && len(secrets) == len(splitAmounts) && len(rs) == len(splitAmounts) && (forall j :: 0 <= j && j < i ==> rs[j] != nil)
+
 //@ func (*Wallet).createBlindedMessages
 //@   tags C19
+//@   requires w != nil && (hexok(keysetId) ==> len(keysetId) == 16) && (counter != nil ==> 0 <= *counter && *counter < 4294967296)
 //@   modifies *counter, wal.derivedupto
 //@   nullable counter
-//@   assumes err == nil && counter != nil ==> old(*counter) + len(splitAmounts) < 4294967296
-//@   ensures @lens [C19] err == nil ==> len(r0) == len(splitAmounts) && len(r1) == len(splitAmounts) && len(r2) == len(splitAmounts)
+//@   presumes counter != nil ==> *counter + len(splitAmounts) <= 2147483648
+//@   ensures @lens [C19] err == nil ==> len(r0) == len(splitAmounts) && len(r1) == len(splitAmounts) && len(r2) == len(splitAmounts) && (forall j :: 0 <= j && j < len(r2) ==> r2[j] != nil)
 //@   ensures @advanced [C19] err == nil && counter != nil ==> *counter == old(*counter) + len(splitAmounts)
 //@   assumes err == nil && counter != nil ==> wal.derivedupto == upd(old(wal.derivedupto), keysetId, old(*counter) + len(splitAmounts))
 //@   assumes counter == nil ==> wal.derivedupto == old(wal.derivedupto)
-//@   loop range(splitAmounts) invariant 0 <= i && i <= len(splitAmounts) && len(blindedMessages) == len(splitAmounts) && len(secrets) == len(splitAmounts) && len(rs) == len(splitAmounts) && (counter != nil ==> *counter == (old(*counter) + i) % 4294967296)
+//@   loop range(splitAmounts) invariant 0 <= i && i <= len(splitAmounts) && len(blindedMessages) == len(splitAmounts) && len(secrets) == len(splitAmounts) && len(rs) == len(splitAmounts) && (counter != nil ==> *counter == old(*counter) + i) && (forall j :: 0 <= j && j < i ==> rs[j] != nil)
 
 // Looking up (and, after a rotation or a fee change, re-saving) the active keyset
 // never moves a stored counter backwards.
+//@ func GetMintActiveKeyset
+//@   tags C19
+//@   ensures @nonnil [C19] r1 == nil ==> r0 != nil
+
 //@ func (*Wallet).getActiveKeyset
 //@   tags C19
 //@   requires w != nil && w.db != nil && w.mints != nil && winv()
 //@   ensures @past [C19] winv()
 //@   ensures @nonnil [C19] err == nil ==> result != nil
+// A-KEYSET (assumed): keyset ids are 8 bytes (NUT-02) and the keys of a stored keyset parsed
+//@   assumes err == nil ==> (hexok(result.Id) ==> len(result.Id) == 16) && (forall a :: (a in result.PublicKeys) ==> result.PublicKeys[a] != nil)
 //@   loop 1 invariant winv()
 //@   loop 2 invariant winv()
 
+// reading the stored counter starts a derivation at it (ghost effect, assumed)
 //@ func (*Wallet).counterForKeyset
 //@   tags C19
+//@   requires w != nil && w.db != nil
+//@   modifies wal.derivedupto
 //@   ensures @stored [C19] result == wdb.counter[keysetId]
+//@   assumes wal.derivedupto == upd(old(wal.derivedupto), keysetId, result)
 
 // Every path that has outputs signed starts deriving at the stored counter and
 // stores a counter past everything it had signed before it returns successfully.
 //@ func (*Wallet).swapToSend
 //@   tags C19
-//@   requires w != nil && mint != nil && w.db != nil && winv()
+//@   nullable spendingCondition
+//@   requires w != nil && mint != nil && w.db != nil && w.mints != nil && winv()
 //@   calls (*Wallet).createBlindedMessages asserts @fresh [C19] counter == nil || *counter >= wal.signedupto[keysetId]
 //@   ensures @past [C19] err == nil ==> winv()
 
 //@ func (*Wallet).MintTokens
 //@   tags C19
-//@   requires w != nil && w.db != nil && winv()
+//@   requires w != nil && w.db != nil && w.mints != nil && winv()
 //@   calls (*Wallet).createBlindedMessages asserts @fresh [C19] counter == nil || *counter >= wal.signedupto[keysetId]
 //@   ensures @past [C19] r1 == nil ==> winv()
